@@ -326,6 +326,23 @@ def run(ctx):
             break
     ctx.rules.append("queue-bmixed: 1-4 consumers parked in pop() on an empty bounded queue, then try_pop (must fail at once), pushes, FIFO delivery; mirror image with producers parked on a full queue and try_push")
     ctx.ties.append({"name": "queue-bmixed (oracle only)", "cases": nb, "disagreements": mbad})
+    # blocked calls around operations that fail with an exception
+    nt = ctx.scale(6, 40)
+    tbad = 0
+    for r in range(nt):
+        args = ["bthrow", 1 + r % 3, r % 3, ctx.seed * 1000 + r]
+        rc, lines, err = ctx.run_driver(exe, args, timeout=120)
+        ctx.count(("queue-bthrow", r), True, "queue-bthrow")
+        t = (lines or ["no output"])[-1].split()
+        if rc != 0 or len(t) < 6 or t[1::2] != ["0", "0", "0"]:
+            tbad += 1
+            ctx.add(Finding("violation", "bqueue-blocked-call-after-failed-operation", "concurrent_bounded_queue with %d blocked call(s) and an operation that fails with an exception next to successful ones (first good call: %s): %s rc=%s "
+                            "(STUCK = a pop() blocked before the items were pushed, or a push() blocked before the space appeared, has not returned 3 s later; LOST/EXTRA = the blocked calls do not get exactly the good items)" % (
+                                args[1], ["push", "try_push", "emplace"][args[2]], " ".join(t), rc), {"tie": "queue-bthrow", "args": args}))
+            break
+    ctx.rules.append("queue-bthrow: 1-3 consumers parked in pop(); a push whose copy throws (before / among the good ones) and as many good push / try_push / emplace calls: every consumer returns with a good item within 3 s; "
+                     "1-3 producers parked on a full queue, a pop whose assignment throws, then pops: every producer returns, nothing lost")
+    ctx.ties.append({"name": "queue-bthrow (oracle only)", "cases": nt, "disagreements": tbad})
     # known finding: abort of a blocked pop (white-box replay of theorem bqueue_abort_refuted_item_overtaken)
     rc, lines, err = ctx.run_driver(exe, ["abortwb"], timeout=60)
     ctx.count(("abortwb",), True, "abortwb")
